@@ -105,8 +105,26 @@ def run(case, ctx):
     root_list = [(r % 12, r // 12, r) for r in range(144)] if not \
         case.get("big") else [(rx_, ry_, -1) for rx_, ry_ in case["big"]]
     for rx, ry, r in root_list:
+        nested = None
+        if (rx + ry) % 3 == 0:
+            # an enumeration given up after its first chip, and two
+            # enumerations of the same machine walked in step, before the
+            # one that is judged
+            it = g.spinn5_eth_coords(w, h, rx, ry)
+            next(it, None)
+            del it
+            ctx.hit("eth_enumeration_abandoned")
+            nested = [(tuple(a), tuple(b))
+                      for a in g.spinn5_eth_coords(w, h, rx, ry)
+                      for b in g.spinn5_eth_coords(w, h, rx, ry)]
         lst = [tuple(c) for c in g.spinn5_eth_coords(w, h, rx, ry)]
         ctx.hit("eth_list")
+        if nested is not None:
+            check(nested == [(a, b) for a in lst for b in lst],
+                  "eth-list-nested",
+                  "a nested pair of enumerations gave %d pairs, one "
+                  "enumeration gives %d chips" % (len(nested), len(lst)),
+                  w=w, h=h, root=(rx, ry))
         exp = set()
         for ex, ey in ETH:
             for i in range(-1, W // 12 + 1):
